@@ -34,7 +34,7 @@ func c38ParamValues(kind string) (class string, vals []string) {
 	case "balop":
 		return "bad_operator_param", []string{"e", "ne", "lt", "lte", "gt", "gte", "eq", "", "GTE", "like", "$gte", "\x00", "in"}
 	case "str":
-		return "boundary_string_param", c38BoundaryStrings()
+		return "boundary_string_param", c38LeafStrings()
 	}
 	return "", nil
 }
@@ -270,9 +270,7 @@ func c38SysMutants(rt *c38Route, variant int, valid c38Req, st *c38State) []c38M
 		if declared[name] {
 			continue
 		}
-		for _, v := range []string{"abc", "\x00"} {
-			add("undeclared_param", fmt.Sprintf("%s=%q", name, v), valid.setQuery(name, v))
-		}
+		add("undeclared_param", fmt.Sprintf("%s=%q", name, "abc"), valid.setQuery(name, "abc"))
 	}
 	add("unknown_param", "zzz=1", valid.setQuery("zzz", "1"))
 	add("unknown_param", "=1 (empty name)", valid.setQuery("", "1"))
